@@ -72,18 +72,20 @@ package rtmp
 //@   mode int
 //@   modular
 //@   requires header != nil && prevHeader == nil && chunkSize >= 1 && chunkSize <= 1<<24
-//@   requires 1 <= len(message) && len(message) < 1<<24 && 2 <= header.Csid && header.Csid <= 65599
+//@   requires len(message) < 1<<24 && 2 <= header.Csid && header.Csid <= 65599
 //@   let m = bhl(header.Csid)
 //@   let extn = header.TimestampAbs >= 0xFFFFFF ? 4 : 0
+//@   let n = (len(message) + chunkSize - 1) / chunkSize
+//@   loop 1 invariant [C08.chunks.count] thorough numOfChunk == n && lastChunkSize == len(message) - (n-1)*chunkSize
 //@   loop 1 invariant 0 <= i && i <= numOfChunk && 0 <= index && index <= i*(chunkSize+18) && (i == numOfChunk ==> index <= len(out)) && fresh(out)
 //@   loop 1 invariant (i == 0) == (prevHeader == nil) && (i > 0 ==> prevHeader == header)
-//@   loop 1 invariant [C08.chunks.len] thorough index == (i == 0 ? 0 : m + 11 + extn + (i-1)*(m + extn) + i*chunkSize)
+//@   loop 1 invariant [C08.chunks.len] thorough index == (i == 0 ? 0 : m + 11 + extn + (i-1)*(m + extn) + (i == numOfChunk ? len(message) : i*chunkSize))
 //@   loop 1 decreases numOfChunk - i
 //@   loop 1 step [C08.chunk.hdr]  headLen == (old(i) == 0 ? m + 11 + extn : m + extn)
 //@   loop 1 step [C08.chunk.size] index - old(index) - headLen == (old(i) == numOfChunk-1 ? lastChunkSize : chunkSize)
 //@   loop 1 step [C08.chunk.body] slow: forall j in [0, index - old(index) - headLen) :: out[old(index)+headLen+j] == message[old(i)*chunkSize+j]
 //@   ensures [C08.fresh] fresh(result)
-//@   ensures [C08.total] thorough len(result) == len(message) + m + 11 + extn + (numOfChunk-1)*(m+extn)
+//@   ensures [C08.total] thorough len(message) >= 1 ==> len(result) == len(message) + m + 11 + extn + (n-1)*(m+extn)
 //@ end
 
 // ---- AMF0 readers (C18 totality/bounds/termination, C04) -----------------------------------------------------------
@@ -221,4 +223,16 @@ package rtmp
 //@ end
 //@ func (*PullSession).UniqueKey
 //@   trusted
+//@ end
+
+// ---- chunk stream reader (C08 decoder side): one chunk per iteration of loop 1 -------------------------------------
+// Point assertions (keyed by the source text of the statement they follow) state the RTMP 1.0 §5.3.1 rules
+// the iteration applies; the induction over a whole interleaved stream is not a discharged obligation.
+//@ func (*ChunkComposer).RunLoop
+//@   props C08 C04
+//@   assert after "stream.header.MsgStreamId = int(bele.LeUint32(bootstrap[7:]))" [C08.rd.fmt0] stream.header.TimestampAbs == be24(bootstrap, 0) && stream.timestamp == be24(bootstrap, 0) && stream.header.MsgLen == be24(bootstrap, 3) && stream.header.MsgTypeId == bootstrap[6] && stream.header.MsgStreamId == int(le32(bootstrap, 7)) && stream.absTsFlag
+//@   assert after "stream.timestamp = newTs" [C08.rd.ext] stream.timestamp == be32(bootstrap, 0)
+//@   let before = stream.msg.buff.wpos - stream.msg.buff.rpos - int(neededSize)
+//@   assert after "stream.msg.Flush(neededSize)" [C08.rd.needed] int: 0 <= before && before <= int(stream.header.MsgLen) ==> int(neededSize) == (int(stream.header.MsgLen) - before <= int(c.peerChunkSize) ? int(stream.header.MsgLen) - before : int(c.peerChunkSize))
+//@   assert after "stream.header.Csid = csid" [C08.rd.setchunksize] stream.header.MsgTypeId == 1 && stream.msg.buff.wpos - stream.msg.buff.rpos >= 4 ==> c.peerChunkSize == be32(stream.msg.buff.core, stream.msg.buff.rpos)
 //@ end
